@@ -3115,7 +3115,8 @@ class C16(Prop):
             k += 1
         # thread 0 fails and stays alive, n short-lived threads then fail one after the other, thread 0 reads: a table of slots handed out
         # by a wrapping counter of any size up to n is detected (powers of two and their neighbours)
-        for n in ((300, 4097, 65537) if tier == "quick" else (300, 4097, 65535, 65536, 65537, 131073)):
+        # (65536+ sequential threads take 10 s here and several times that on a loaded machine: thorough tier and the search only)
+        for n in ((300, 4097) if tier == "quick" else (300, 4097, 65535, 65536, 65537, 131073)):
             cases.append(Case("h%d" % k, "HS,%d" % n, {"family": "sequential-threads"}))
             k += 1
         return cases
